@@ -8,6 +8,7 @@ import (
 	"testing"
 	"time"
 
+	"github.com/thushan/olla/internal/adapter/proxy/core"
 	"github.com/thushan/olla/verifharness/backend"
 	"github.com/thushan/olla/verifharness/ev"
 	"github.com/thushan/olla/verifharness/rawclient"
@@ -172,12 +173,19 @@ func genCase(t *rapid.T) Case {
 		}
 		for l := 0; l < nl; l++ {
 			nv := rapid.IntRange(1, 2).Draw(t, "vals")
+			if fh.name == "X-Real-IP" {
+				nv = 1 // one address by definition
+			}
 			var vs []string
 			for k := 0; k < nv; k++ {
 				uniq++
 				vs = append(vs, fh.mk(uniq))
 			}
-			hs = append(hs, [2]string{caseVariant(t, fh.name), strings.Join(vs, ", ")})
+			line := strings.Join(vs, ", ")
+			if rapid.IntRange(0, 5).Draw(t, "empty-line") == 0 {
+				line = "" // an empty line of that header among the others
+			}
+			hs = append(hs, [2]string{caseVariant(t, fh.name), line})
 		}
 	}
 	// shuffle deterministically through rapid
@@ -422,6 +430,43 @@ func runCase(c Case) []ev.Violation {
 	if len(sent["via"]) == 0 && len(got["via"]) == 0 {
 		bad("own-forwarding-element-missing/via", "upstream request has no Via header")
 	}
+	// 5. Olla's own additions: present on every kind of backend request and complete
+	for _, n := range []string{"via", "x-forwarded-for", "x-forwarded-proto", "x-forwarded-host", "x-real-ip"} {
+		for _, l := range sent[n] {
+			if strings.TrimSpace(l) == "" {
+				rec.Class("preexisting-empty-line=" + n)
+				break
+			}
+		}
+		want, have := elems(sent[n]), elems(got[n])
+		if len(want) == 0 && len(have) == 0 {
+			bad("own-forwarding-element-missing/"+n+"/"+c.Route, "%s route, engine %s: the client sent no %s value and the upstream request carries none either (upstream %q): Olla's own addition is missing", c.Route, c.Engine, n, got[n])
+			continue
+		}
+		if len(have) != len(want)+1 || strings.Join(have[:len(want)], ",") != strings.Join(want, ",") {
+			continue // judged above
+		}
+		own := have[len(want)]
+		switch n {
+		case "via":
+			if own != core.GetViaHeader() {
+				bad("own-forwarding-element-damaged/via", "%s route, engine %s: client sent Via lines %q, upstream got %q: the appended element %q is not Olla's Via element %q", c.Route, c.Engine, sent[n], got[n], own, core.GetViaHeader())
+			}
+		case "x-forwarded-for":
+			// Olla appends the client address as it determines it: the peer, or the first address the
+			// client itself supplied in X-Forwarded-For / X-Real-IP
+			ok := own == "127.0.0.1"
+			if len(want) > 0 && own == want[0] {
+				ok = true
+			}
+			if xr := elems(sent["x-real-ip"]); len(xr) > 0 && own == xr[0] {
+				ok = true
+			}
+			if !ok {
+				bad("own-forwarding-element-damaged/x-forwarded-for", "%s route, engine %s: client sent X-Forwarded-For lines %q, upstream got %q: the appended element %q is neither the peer address nor an address the client supplied", c.Route, c.Engine, sent[n], got[n], own)
+			}
+		}
+	}
 	if len(vs) == 0 {
 		rec.Sample(map[string]any{"engine": c.Engine, "route": c.Route, "failover": c.Failover, "client_headers": len(c.Headers), "upstream_headers": len(up.Headers)})
 	}
@@ -449,7 +494,8 @@ func spellings(hs [][2]string, name string) []string {
 
 func TestC15(t *testing.T) {
 	defer rig.StopAll()
-	rec.SetRule("header blocks written verbatim by a raw TCP client: every sensitive and hop-by-hop name in generated letter-case variants with 0..3 occurrences and empty values (a quarter of the cases sparse: only one or two blocked names present, with drawn patterns of empty and non-empty lines), 0..40 arbitrary RFC 7230 token-named headers (repeated names, obs-text and tab in values), optional pre-existing Via / X-Forwarded-* / X-Real-IP on one or several lines; x route (proxy, provider, Anthropic passthrough, Anthropic translated) x engine x failover from a refusing first endpoint; the raw backend's received header block is compared. non-trivial = >=1 sensitive header in non-canonical case and >=5 arbitrary headers; distinct by sorted (name, count) skeleton")
+	rec.Assume("an X-Real-IP line carries one address (the header is not a list); Via / X-Forwarded-* lines carry one or two elements")
+	rec.SetRule("header blocks written verbatim by a raw TCP client: every sensitive and hop-by-hop name in generated letter-case variants with 0..3 occurrences and empty values (a quarter of the cases sparse: only one or two blocked names present, with drawn patterns of empty and non-empty lines), 0..40 arbitrary RFC 7230 token-named headers (repeated names, obs-text and tab in values), optional pre-existing Via / X-Forwarded-* / X-Real-IP on one or several lines (a sixth of those lines empty); x route (proxy, provider, Anthropic passthrough, Anthropic translated) x engine x failover from a refusing first endpoint; the raw backend's received header block is compared. non-trivial = >=1 sensitive header in non-canonical case and >=5 arbitrary headers; distinct by sorted (name, count) skeleton")
 	rec.Assume("headers nominated by the client's Connection value (RFC 7230 §6.1) are not asserted; header names are compared case-insensitively; for X-Forwarded-For/Via preservation of the existing elements (as a prefix) and exactly one appended element are asserted, not what that element says")
 	if ev.Replay(t, rec, "headers", runCase) {
 		return
